@@ -99,6 +99,19 @@ theorem reported_event_enters_process_events (ev : Event) (k : Nat) (l : List Ob
       (fun _ s' => l ++ [.pe k] <+: s'.log) (fun s' => l ++ [.pe k] <+: s'.log) :=
   Verif.Inv.LogMono.processOne_enters ev k l
 
+open Verif.Loop in
+/-- **The whole batch, from every state**: when the batch loop returns (it returns errors as values; only a panic
+    aborts it), every event of the batch either found its token dead at its turn — in the state `si` in which its turn
+    began — or entered `process_events` of the source the token resolved to, `pe k` directly after the log as it stood
+    then.  No event of the batch is skipped. -/
+theorem every_event_of_the_batch_is_dispatched (evs : List Event) (first : Option Err) (s : St) :
+    match batchLoop evs first s with
+    | .ok _ s' => ∀ (i : Nat) (hi : i < evs.length), ∃ si : St, si.log <+: s'.log ∧
+        (slotDisp si (forgetSub evs[i].key) = none ∨
+         ∃ k, slotDisp si (forgetSub evs[i].key) = some k ∧ si.log ++ [.pe k] <+: s'.log)
+    | .error _ _ => True :=
+  Verif.Inv.LogMono.batch_enters_each evs first s
+
 /-- non-vacuity: a ping source pinged while disabled and enabled again, a level generic source over a written fd —
     both sit ready in the table before the dispatch, and the wait reports two events -/
 def readyHistory : List Verif.Loop.Op :=
